@@ -200,6 +200,11 @@ func genOps(r *rng, n int) []op {
 		}
 		a := aOf[as]
 		counter := pick(r, []int64{0, 1, 2, 3, 9, 10, 11, 1 << 31, 1 << 32, 1<<53 - 1, 1 << 53, int64(r.next() >> uint(11+r.intn(52)))})
+		if r.intn(6) == 0 {
+			if v := dictInt(r) + uint64(r.intn(5)) - 2; v < 1<<53 {
+				counter = int64(v) // near a number the code itself mentions
+			}
+		}
 		var o op
 		switch r.intn(10) {
 		case 0, 1:
@@ -530,6 +535,8 @@ func main() {
 	node := flag.String("node", "", "")
 	exportsOut := flag.String("exports", "", "only observe the export table and write it to this Lean file")
 	flag.Parse()
+	os.Setenv("VERIF_REPO_DIR", *repo)
+	buildDict()
 	if *node == "" {
 		for _, c := range []string{"/root/.nvm/versions/node/v20.20.2/bin/node", "node"} {
 			if p, err := exec.LookPath(c); err == nil {
